@@ -17,9 +17,8 @@ VARIABLES kind, target, t0, started, hist, delivered
 vars == <<kind, target, t0, started, hist, delivered>>
 
 \* a console stream can fail and recover at any time; a file target is failing from the start (a device
-\* that rejects every write); a rolling target is healthy or its directory is missing
+\* that rejects every write, for the rolling appender: the file it opens for the current interval is such a device)
 Init == /\ kind \in Kinds /\ target \in (CASE kind = "console" -> {"ok", "failing"}
-                                            [] kind = "rolling" -> {"ok", "missing"}
                                             [] OTHER -> Targets)
         /\ t0 = target /\ started = FALSE /\ hist = <<>> /\ delivered = 0
 
